@@ -8,8 +8,20 @@ use std::rc::Rc;
 pub struct SinkErr(pub usize);
 
 impl embedded_io::Error for SinkErr {
+    /// the kind varies with the failing call (every position of every scenario is failed in turn, so every kind is seen on every
+    /// path): no kind of error may be treated as "not really an error" -- retried, ignored, turned into something else
     fn kind(&self) -> ErrorKind {
-        ErrorKind::Other
+        const KINDS: [ErrorKind; 8] = [
+            ErrorKind::Other,
+            ErrorKind::Interrupted,
+            ErrorKind::TimedOut,
+            ErrorKind::WriteZero,
+            ErrorKind::BrokenPipe,
+            ErrorKind::OutOfMemory,
+            ErrorKind::InvalidInput,
+            ErrorKind::NotConnected,
+        ];
+        KINDS[self.0 % KINDS.len()]
     }
 }
 
